@@ -1,927 +1,13 @@
-(* The frame generators AS TRANSLATED from src/libwifi/gen (Gen/Sites.v: the body_libwifi_create_... lists) store exactly their arguments
-   and the protocol's constants.  For EVERY environment rho (nothing is assumed about the prior contents "obj->..." of the
-   object: the zeroing makes them irrelevant), every argument in its C type's range and every callee answer:
-   - the run is never stuck; its first event is memset(obj, 0, sizeof *obj), the size being Gen/Layout.v's;
-   - the addresses are copied from the stated arguments into addr1, addr2, addr3 in that order;
-   - in the final environment type / subtype are Gen/Consts.v's enumerators, every assigned fixed parameter is the argument or
-     the documented default, and every other member of the object reads 0 ([untouched]: every lvalue text under "obj->" that is
-     neither assigned nor under a member handed to memcpy / libwifi_quick_add_tag; [reads_zero] spells it out for the
-     header's version, flags, duration and sequence control);
-   - the tag-carrying routines call libwifi_quick_add_tag in the order and with the numbers / lengths of the body, a non-zero
-     answer is returned at once with no later call; the object's tags read 0 when the first add is made.
-   Sections: 1 environments, the frame statement by reflection, the apply-style runner; 2 the routines without tags (action,
-   action no-ack, ATIM, authentication, deauthentication, disassociation, RTS, CTS); 3 the routines that add their tags
-   themselves (association / probe / reassociation request); 4 those that go through the setters (beacon, probe response,
-   association / reassociation response); 5 the six setters; 6 the timing advertisement; 7 the ATIM addresses on concrete values.
-   DEVIATIONS stated where they occur: ATIM copies [transmitter] into addr1 and [receiver] into addr2; the reassociation
-   response adds no supported-rates element; association id is left 0 in both responses.
-   Conventions as in Proofs/SitesTags.v: arguments are put in the environment with [upd], pointers appear in the trace as
-   [wrap u64 (rho "name")], a callee's answer is the environment's "ret:<callee>" (one name per callee: see section 3). *)
+(* the frame generators as translated: machinery in CodeGenDefs.v, the theorems in CodeGenA..D.v (built in parallel); here the ATIM example *)
 From Coq Require Import ZArith String Ascii List Bool Lia.
 From LW Require Import Base.CExpr Gen.Consts Gen.Layout Gen.Sites Proofs.SitesLemmas.
 Import ListNotations.
 Local Open Scope string_scope.
 Local Open Scope Z_scope.
-
-(* ---------------------------------------------------------------- 1. environments built by upd / zeroed / clobber *)
-Lemma upd_other R x v y : String.eqb y x = false -> upd R x v y = R y.
-Proof. intros H. unfold upd. rewrite H. reflexivity. Qed.
-Lemma clobber_other R n x y : String.prefix x y = false -> clobber R n x y = R y.
-Proof. intros H. unfold clobber. rewrite H. reflexivity. Qed.
-Lemma zeroed_in R x y : String.prefix x y = true -> zeroed R x y = 0.
-Proof. intros H. unfold zeroed. rewrite H. reflexivity. Qed.
-Lemma prefix_neq p y x : String.prefix p y = true -> String.prefix p x = false -> String.eqb y x = false.
-Proof. intros Hy Hx. destruct (String.eqb_spec y x) as [E | N]; [subst; congruence | reflexivity]. Qed.
-
-(* every lvalue text under [obj] that is not one of [assigned] and not under one of [clobbered] reads 0 *)
-Definition untouched (obj : string) (assigned clobbered : list string) (rho' : env) : Prop :=
-  forall y, String.prefix obj y = true ->
-            existsb (String.eqb y) assigned = false ->
-            existsb (fun c => String.prefix c y) clobbered = false -> rho' y = 0.
-
-Definition reads_zero (rho' : env) (pre : string) (l : list string) : Prop := Forall (fun s => rho' (pre ++ s) = 0) l.
-
-(* the members of the management header no generator assigns, and of the control header *)
-Definition ctrl_rest : list string :=
-  ["frame_control.version"; "frame_control.flags.to_ds"; "frame_control.flags.from_ds"; "frame_control.flags.more_frags";
-   "frame_control.flags.retry"; "frame_control.flags.power_mgmt"; "frame_control.flags.more_data"; "frame_control.flags.protect";
-   "frame_control.flags.ordered"].
-Definition mgmt_rest : list string := ctrl_rest ++ ["duration"; "seq_control.fragment_number"; "seq_control.sequence_number"].
-
-(* the events *)
-Definition ev_memset (rho : env) (obj : string) (size : Z) : event := ("memset", [wrap u64 (rho obj); 0; size]).
-Definition ev_memcpy (rho : env) (dst src : string) (n : Z) : event := ("memcpy", [wrap u64 (rho dst); wrap u64 (rho src); n]).
-Definition ev_add_tag (rho : env) (tags : string) (num : Z) (data : string) (len : Z) : event :=
-  ("libwifi_quick_add_tag", [wrap u64 (rho tags); num; wrap u64 (rho data); len]).
-(* zeroing, then the three addresses in header order *)
-Definition mgmt_events (rho : env) (obj : string) (size : Z) (a1 a2 a3 : string) : list event :=
-  [ev_memset rho obj size;
-   ev_memcpy rho ("&" ++ obj ++ "->frame_header.addr1") a1 6;
-   ev_memcpy rho ("&" ++ obj ++ "->frame_header.addr2") a2 6;
-   ev_memcpy rho ("&" ++ obj ++ "->frame_header.addr3") a3 6].
-
-(* ---------------------------------------------------------------- the frame statement, by reflection on the layers
-   of the final environment *)
-Inductive eop := OU (x : string) (v : Z) | OC (n : nat) (x : string) | OZ (x : string).
-Fixpoint build (ops : list eop) (rho : env) : env :=
-  match ops with
-  | [] => rho
-  | OU x v :: r => upd (build r rho) x v
-  | OC n x :: r => clobber (build r rho) n x
-  | OZ x :: r => zeroed (build r rho) x
-  end.
-(* two prefixes of one string are comparable *)
-Lemma prefix_comparable : forall p c y, String.prefix p y = true -> String.prefix c y = true ->
-  String.prefix p c = true \/ String.prefix c p = true.
-Proof.
-  induction p as [ | a p IH]; intros c y Hp Hc; [left; destruct c; reflexivity | ].
-  destruct c as [ | b c]; [right; reflexivity | ].
-  destruct y as [ | d y]; [cbn in Hp; discriminate | ].
-  cbn [String.prefix] in *.
-  destruct (ascii_dec a d) as [E1 | N1]; [ | discriminate]. destruct (ascii_dec b d) as [E2 | N2]; [ | discriminate].
-  subst a b. destruct (ascii_dec d d) as [E | N]; [ | contradiction]. apply IH with y; assumption.
-Qed.
-
-(* outermost layer first: an assignment is to a listed name or to a name outside the object, a clobber is of a listed member
-   or of a name that neither contains the object's prefix nor is contained in it (a local), and the zeroing of the object is
-   reached *)
-Fixpoint frame_ok (obj : string) (assigned clobbered : list string) (ops : list eop) : bool :=
-  match ops with
-  | [] => false
-  | OU x _ :: r => (existsb (String.eqb x) assigned || negb (String.prefix obj x)) && frame_ok obj assigned clobbered r
-  | OC _ x :: r => (existsb (String.eqb x) clobbered || (negb (String.prefix x obj) && negb (String.prefix obj x)))
-                   && frame_ok obj assigned clobbered r
-  | OZ x :: _ => String.eqb x obj
-  end.
-
-Lemma existsb_false_at {A} (f : A -> bool) l x : existsb f l = false -> In x l -> f x = false.
-Proof.
-  intros H HIn. destruct (f x) eqn:E; [ | reflexivity].
-  assert (existsb f l = true) by (apply existsb_exists; exists x; split; assumption). congruence.
-Qed.
-
-Lemma build_untouched obj a c ops rho : frame_ok obj a c ops = true -> untouched obj a c (build ops rho).
-Proof.
-  induction ops as [ | op ops IH]; intros H; [discriminate | ].
-  intros y Hp Ha Hc. destruct op as [x v | n x | x]; cbn [frame_ok build] in *.
-  - apply andb_prop in H. destruct H as [H1 H2]. rewrite upd_other; [apply IH; assumption | ].
-    apply orb_prop in H1. destruct H1 as [H1 | H1].
-    + apply existsb_exists in H1. destruct H1 as (x' & HIn & E). apply String.eqb_eq in E. subst x'.
-      exact (existsb_false_at _ _ _ Ha HIn).
-    + apply (prefix_neq obj); [exact Hp | ]. destruct (String.prefix obj x); [discriminate | reflexivity].
-  - apply andb_prop in H. destruct H as [H1 H2]. rewrite clobber_other; [apply IH; assumption | ].
-    apply orb_prop in H1. destruct H1 as [H1 | H1].
-    + apply existsb_exists in H1. destruct H1 as (x' & HIn & E). apply String.eqb_eq in E. subst x'.
-      exact (existsb_false_at _ _ _ Hc HIn).
-    + apply andb_prop in H1. destruct H1 as [A B].
-      destruct (String.prefix x y) eqn:E; [ | reflexivity].
-      destruct (prefix_comparable x obj y E Hp) as [C | C]; rewrite C in *; discriminate.
-  - apply String.eqb_eq in H. subst x. apply zeroed_in. exact Hp.
-Qed.
-
-Definition free_name (obj : string) (a c : list string) (y : string) : bool :=
-  String.prefix obj y && negb (existsb (String.eqb y) a) && negb (existsb (fun p => String.prefix p y) c).
-Lemma untouched_at obj a c rho' y : untouched obj a c rho' -> free_name obj a c y = true -> rho' y = 0.
-Proof.
-  intros H Hf. unfold free_name in Hf. apply andb_prop in Hf. destruct Hf as [Hf H3]. apply andb_prop in Hf. destruct Hf as [H1 H2].
-  apply H; [exact H1 | | ].
-  - destruct (existsb (String.eqb y) a); [discriminate | reflexivity].
-  - destruct (existsb (fun p => String.prefix p y) c); [discriminate | reflexivity].
-Qed.
-Lemma untouched_reads_zero obj a c rho' pre l :
-  untouched obj a c rho' -> forallb (fun s => free_name obj a c (pre ++ s)) l = true -> reads_zero rho' pre l.
-Proof.
-  intros H Hl. unfold reads_zero. apply Forall_forall. intros s HIn.
-  apply (untouched_at obj a c); [exact H | ]. rewrite forallb_forall in Hl. exact (Hl s HIn).
-Qed.
-
-Ltac env_base R :=
-  lazymatch R with
-  | upd ?R' _ _ => env_base R' | clobber ?R' _ _ => env_base R' | zeroed ?R' _ => env_base R' | _ => R
-  end.
-Ltac env_ops R :=
-  lazymatch R with
-  | upd ?R' ?x ?v => let l := env_ops R' in constr:(OU x v :: l)
-  | clobber ?R' ?n ?x => let l := env_ops R' in constr:(OC n x :: l)
-  | zeroed ?R' ?x => let l := env_ops R' in constr:(OZ x :: l)
-  | _ => constr:(@nil eop)
-  end.
-Ltac frame_solve :=
-  lazymatch goal with
-  | |- untouched ?o ?a ?c ?R =>
-      let ops := env_ops R in let b := env_base R in
-      change (untouched o a c (build ops b)); apply build_untouched; vm_compute; reflexivity
-  end.
-
-(* ---------------------------------------------------------------- running a body: goals of the shape [exec f m rho tr l = o]
-   are reduced by APPLYING one lemma per statement (no rewriting: the proof terms stay small); the trace is kept a flat list
-   and the index of a clobber a numeral *)
-Lemma exec_set_eq f m rho tr k x e r v o :
-  ceval rho m e = Some v -> exec f m (upd rho x v) tr r = o -> exec (S f) m rho tr (SSet k x e :: r) = o.
-Proof. intros H <-. apply exec_set. exact H. Qed.
-Lemma exec_call_eq f m rho tr k g args r vs tr' o :
-  evals rho m args = Some vs -> (tr ++ [(g, vs)])%list = tr' -> exec f m rho tr' r = o -> exec (S f) m rho tr (SCall k g args :: r) = o.
-Proof. intros H <- <-. apply exec_call. exact H. Qed.
-Lemma exec_zero_eq f m rho tr x r o : exec f m (zeroed rho x) tr r = o -> exec (S f) m rho tr (SZero x :: r) = o.
-Proof. intros <-. reflexivity. Qed.
-Lemma exec_clobber_eq f m rho tr x r n o :
-  List.length tr = n -> exec f m (clobber rho n x) tr r = o -> exec (S f) m rho tr (SClobber x :: r) = o.
-Proof. intros <- <-. reflexivity. Qed.
-Lemma exec_ret_eq f m rho tr k e r v o :
-  ceval rho m e = Some v -> Returned (Some v) rho tr = o -> exec (S f) m rho tr (SRet k (Some e) :: r) = o.
-Proof. intros H <-. apply exec_ret. exact H. Qed.
-Lemma exec_nil_eq f m rho tr o : Fell rho tr = o -> exec (S f) m rho tr [] = o.
-Proof. intros <-. reflexivity. Qed.
-Lemma exec_break_eq f m rho tr r o : Broke rho tr = o -> exec (S f) m rho tr (SBreak :: r) = o.
-Proof. intros <-. reflexivity. Qed.
-Lemma exec_if_eq (bb : bool) f m rho tr k c a b r o1 o :
-  ceval rho m c = Some (b2z bb) -> exec f m rho tr (if bb then a else b) = o1 ->
-  match o1 with Fell rho' tr' => exec f m rho' tr' r | o' => o' end = o ->
-  exec (S f) m rho tr (SIf k c a b :: r) = o.
-Proof. intros H H1 H2. rewrite (exec_if_gen f m rho tr k c a b r bb H), H1, <- H2. destruct o1; reflexivity. Qed.
-Lemma exec_switch_eq f m rho tr k e cases default r v o1 o :
-  ceval rho m e = Some v -> exec f m rho tr (pick_case v cases default) = o1 ->
-  match o1 with Fell rho' tr' => exec f m rho' tr' r | Broke rho' tr' => exec f m rho' tr' r | o' => o' end = o ->
-  exec (S f) m rho tr (SSwitch k e cases default :: r) = o.
-Proof. intros H H1 H2. rewrite (exec_switch f m rho tr k e cases default r v H), H1, <- H2. destruct o1; reflexivity. Qed.
-
-Lemma wrap_u64_idem v : wrap (mkty false 64) (wrap (mkty false 64) v) = wrap (mkty false 64) v.
-Proof.
-  apply wrap_u64_id. unfold wrap, modulus; cbn [c_signed c_bits]. change (2 ^ 64) with 18446744073709551616.
-  apply Z.mod_pos_bound. lia.
-Qed.
-
-(* evaluation: the evaluator and the environment layers are computed (String.prefix included), wrap / arith stay folded *)
-Ltac gen_eval :=
-  cbv beta iota zeta delta [ceval evals binop c_bits c_signed upd zeroed clobber String.eqb Ascii.eqb Bool.eqb String.append
-                            String.prefix Ascii.ascii_dec Bool.bool_dec sumbool_rec sumbool_rect Ascii.ascii_rec Ascii.ascii_rect
-                            bool_rec bool_rect u8 s8 u16 s16 u32 s32 u64 s64];
-  wrap_ids; rewrite ?wrap_u64_idem.
-Ltac gen_env :=
-  cbv beta iota zeta delta [upd zeroed clobber String.eqb Ascii.eqb Bool.eqb String.append
-                            String.prefix Ascii.ascii_dec Bool.bool_dec sumbool_rec sumbool_rect Ascii.ascii_rec Ascii.ascii_rect
-                            bool_rec bool_rect].
-Ltac gen_cond := gen_eval; decide_bools; reflexivity.
-(* a conditional (a switch) whose condition (value) the context does not decide ends the run when the outcome is still open
-   (an evar: [reflexivity] records the state reached) and is an error otherwise; once a branch is chosen a later failure is
-   not hidden by the other alternatives ([first] commits) *)
-Ltac grun :=
-  lazymatch goal with
-  | |- exec _ _ _ _ (SSet _ _ _ :: _) = _ => eapply exec_set_eq; [gen_eval; reflexivity | grun]
-  | |- exec _ _ _ _ (SCall _ _ _ :: _) = _ => eapply exec_call_eq; [gen_eval; reflexivity | cbn [app]; reflexivity | grun]
-  | |- exec _ _ _ _ (SZero _ :: _) = _ => apply exec_zero_eq; grun
-  | |- exec _ _ _ _ (SClobber _ :: _) = _ => eapply exec_clobber_eq; [cbn [List.length]; reflexivity | grun]
-  | |- exec _ _ _ _ (SRet _ (Some _) :: _) = _ => eapply exec_ret_eq; [gen_eval; reflexivity | reflexivity]
-  | |- exec _ _ _ _ (SBreak :: _) = _ => apply exec_break_eq; reflexivity
-  | |- exec _ _ _ _ [] = _ => apply exec_nil_eq; reflexivity
-  | |- exec _ _ _ _ (SIf _ _ _ _ :: _) = _ =>
-      first [ eapply (exec_if_eq true); [solve [gen_cond] | | ]
-            | eapply (exec_if_eq false); [solve [gen_cond] | | ]
-            | reflexivity ];
-      [> (cbv beta iota; grun) .. ]
-  | |- exec _ _ _ _ (SSwitch _ _ _ _ :: _) = _ =>
-      first [ eapply exec_switch_eq;
-              [ gen_eval; reflexivity
-              | cbv beta iota delta [pick_case existsb]; decide_bools; cbn [orb]; cbv beta iota;
-                lazymatch goal with |- exec _ _ _ _ (if _ then _ else _) = _ => fail | _ => idtac end
-              | ]
-            | reflexivity ];
-      [> (cbv beta iota; grun) .. ]
-  | |- Returned _ _ _ = _ => reflexivity
-  | |- Fell _ _ = _ => reflexivity
-  | |- Broke _ _ = _ => reflexivity
-  end.
-(* the part of the run the context decides, once for all the cases that follow *)
-Ltac gen_prefix :=
-  lazymatch goal with
-  | |- context [exec ?F ?mm ?R ?T ?B] =>
-      let H := fresh "Hpre" in eassert (H : exec F mm R T B = _) by grun; rewrite H; clear H
-  end.
-Ltac gen_observe :=
-  lazymatch goal with
-  | |- observe ?E = _ => let H := fresh "Hrun" in eassert (H : E = _) by grun; rewrite H; clear H; reflexivity
-  end.
-
-Ltac nums :=
-  change (2 ^ 64) with 18446744073709551616 in *; change (2 ^ 63) with 9223372036854775808 in *;
-  change (2 ^ 32) with 4294967296 in *; change (2 ^ 31) with 2147483648 in *.
-
-Ltac gen_fields :=
-  lazymatch goal with
-  | |- context [untouched ?o ?a ?c ?R] =>
-      let Hu := fresh "Hu" in
-      assert (Hu : untouched o a c R) by frame_solve;
-      repeat match goal with |- _ /\ _ => split end;
-      first [ exact Hu
-            | apply (untouched_reads_zero _ _ _ _ _ _ Hu); vm_compute; reflexivity
-            | solve [gen_env; reflexivity] ]
-  end.
-Ltac gen_finish := eexists; split; [ grun | gen_fields ].
-Ltac gen_before := eexists; split; [ grun | split; [ let s := fresh "s" in intros s; gen_env; reflexivity | reflexivity ] ].
-
-(* the statement at the head of a list is a call of f *)
-Definition calls (f : string) (l : list cstmt) : Prop := match l with SCall _ g _ :: _ => g = f | _ => False end.
+From LW Require Export Proofs.CodeGenDefs Proofs.CodeGenA Proofs.CodeGenB Proofs.CodeGenC Proofs.CodeGenD.
 
 Section WithMemory.
 Variable m : memory.
-
-(* ================================================================ 2. the routines without tags *)
-
-(* action / action no-ack: the category is stored; the detail block (length, pointer) is left zeroed *)
-Theorem code_create_action rho cat :
-  0 <= cat < 256 ->
-  let rho0 := upd rho "category" cat in
-  exists rho',
-    exec 40 m rho0 [] body_libwifi_create_action =
-      Returned (Some 0) rho' (mgmt_events rho "action" sizeof_libwifi_action "receiver" "transmitter" "address3") /\
-    rho' "action->frame_header.frame_control.type" = c_TYPE_MANAGEMENT /\
-    rho' "action->frame_header.frame_control.subtype" = c_SUBTYPE_ACTION /\
-    rho' "action->fixed_parameters.category" = cat /\
-    rho' "action->fixed_parameters.details.detail_length" = 0 /\
-    rho' "action->fixed_parameters.details.detail" = 0 /\
-    reads_zero rho' "action->frame_header." mgmt_rest /\
-    untouched "action->"
-      ["action->frame_header.frame_control.type"; "action->frame_header.frame_control.subtype"; "action->fixed_parameters.category"]
-      ["action->frame_header.addr1"; "action->frame_header.addr2"; "action->frame_header.addr3"] rho'.
-Proof.
-  intros Hcat rho0. unfold rho0, body_libwifi_create_action; clear rho0. gen_finish.
-Qed.
-
-Theorem code_create_action_no_ack rho cat :
-  0 <= cat < 256 ->
-  let rho0 := upd rho "category" cat in
-  exists rho',
-    exec 40 m rho0 [] body_libwifi_create_action_no_ack =
-      Returned (Some 0) rho' (mgmt_events rho "action" sizeof_libwifi_action "receiver" "transmitter" "address3") /\
-    rho' "action->frame_header.frame_control.type" = c_TYPE_MANAGEMENT /\
-    rho' "action->frame_header.frame_control.subtype" = c_SUBTYPE_ACTION_NOACK /\
-    rho' "action->fixed_parameters.category" = cat /\
-    rho' "action->fixed_parameters.details.detail_length" = 0 /\
-    rho' "action->fixed_parameters.details.detail" = 0 /\
-    reads_zero rho' "action->frame_header." mgmt_rest /\
-    untouched "action->"
-      ["action->frame_header.frame_control.type"; "action->frame_header.frame_control.subtype"; "action->fixed_parameters.category"]
-      ["action->frame_header.addr1"; "action->frame_header.addr2"; "action->frame_header.addr3"] rho'.
-Proof.
-  intros Hcat rho0. unfold rho0, body_libwifi_create_action_no_ack; clear rho0. gen_finish.
-Qed.
-
-(* ATIM.  DEVIATION from every other management generator: addr1 receives the argument called [transmitter] and addr2 the
-   argument called [receiver] (the parameters are declared in the order transmitter, receiver, address3 and copied in
-   declaration order).  The theorem states what the code does. *)
-Theorem code_create_atim rho :
-  exists rho',
-    exec 40 m rho [] body_libwifi_create_atim =
-      Returned (Some 0) rho' (mgmt_events rho "atim" sizeof_libwifi_atim "transmitter" "receiver" "address3") /\
-    rho' "atim->frame_header.frame_control.type" = c_TYPE_MANAGEMENT /\
-    rho' "atim->frame_header.frame_control.subtype" = c_SUBTYPE_ATIM /\
-    reads_zero rho' "atim->frame_header." mgmt_rest /\
-    untouched "atim->"
-      ["atim->frame_header.frame_control.type"; "atim->frame_header.frame_control.subtype"]
-      ["atim->frame_header.addr1"; "atim->frame_header.addr2"; "atim->frame_header.addr3"] rho'.
-Proof. unfold body_libwifi_create_atim. gen_finish. Qed.
-
-Theorem code_create_auth rho alg seq st :
-  0 <= alg < 65536 -> 0 <= seq < 65536 -> 0 <= st < 65536 ->
-  let rho0 := upd (upd (upd rho "algorithm_number" alg) "transaction_sequence" seq) "status_code" st in
-  exists rho',
-    exec 40 m rho0 [] body_libwifi_create_auth =
-      Returned (Some 0) rho' (mgmt_events rho "auth" sizeof_libwifi_auth "receiver" "transmitter" "address3") /\
-    rho' "auth->frame_header.frame_control.type" = c_TYPE_MANAGEMENT /\
-    rho' "auth->frame_header.frame_control.subtype" = c_SUBTYPE_AUTH /\
-    rho' "auth->fixed_parameters.algorithm_number" = alg /\
-    rho' "auth->fixed_parameters.transaction_sequence" = seq /\
-    rho' "auth->fixed_parameters.status_code" = st /\
-    rho' "auth->tags.length" = 0 /\ rho' "auth->tags.parameters" = 0 /\
-    reads_zero rho' "auth->frame_header." mgmt_rest /\
-    untouched "auth->"
-      ["auth->frame_header.frame_control.type"; "auth->frame_header.frame_control.subtype";
-       "auth->fixed_parameters.algorithm_number"; "auth->fixed_parameters.transaction_sequence"; "auth->fixed_parameters.status_code"]
-      ["auth->frame_header.addr1"; "auth->frame_header.addr2"; "auth->frame_header.addr3"] rho'.
-Proof.
-  intros Halg Hseq Hst rho0. unfold rho0, body_libwifi_create_auth; clear rho0. gen_finish.
-Qed.
-
-(* deauthentication / disassociation: the reason code goes through memcpy(&obj->fixed_parameters.reason_code, &reason_code, 2),
-   which the translation renders as the copy event followed by the load of the parameter into the member *)
-Theorem code_create_deauth rho reason :
-  0 <= reason < 65536 ->
-  let rho0 := upd rho "reason_code" reason in
-  exists rho',
-    exec 40 m rho0 [] body_libwifi_create_deauth =
-      Returned (Some 0) rho'
-        (mgmt_events rho "deauth" sizeof_libwifi_deauth "receiver" "transmitter" "address3" ++
-         [ev_memcpy rho "&deauth->fixed_parameters.reason_code" "&reason_code" 2]) /\
-    rho' "deauth->frame_header.frame_control.type" = c_TYPE_MANAGEMENT /\
-    rho' "deauth->frame_header.frame_control.subtype" = c_SUBTYPE_DEAUTH /\
-    rho' "deauth->fixed_parameters.reason_code" = reason /\
-    rho' "deauth->tags.length" = 0 /\ rho' "deauth->tags.parameters" = 0 /\
-    reads_zero rho' "deauth->frame_header." mgmt_rest /\
-    untouched "deauth->"
-      ["deauth->frame_header.frame_control.type"; "deauth->frame_header.frame_control.subtype"; "deauth->fixed_parameters.reason_code"]
-      ["deauth->frame_header.addr1"; "deauth->frame_header.addr2"; "deauth->frame_header.addr3"] rho'.
-Proof.
-  intros Hre rho0. unfold rho0, body_libwifi_create_deauth; clear rho0. gen_finish.
-Qed.
-
-Theorem code_create_disassoc rho reason :
-  0 <= reason < 65536 ->
-  let rho0 := upd rho "reason_code" reason in
-  exists rho',
-    exec 40 m rho0 [] body_libwifi_create_disassoc =
-      Returned (Some 0) rho'
-        (mgmt_events rho "disassoc" sizeof_libwifi_disassoc "receiver" "transmitter" "address3" ++
-         [ev_memcpy rho "&disassoc->fixed_parameters.reason_code" "&reason_code" 2]) /\
-    rho' "disassoc->frame_header.frame_control.type" = c_TYPE_MANAGEMENT /\
-    rho' "disassoc->frame_header.frame_control.subtype" = c_SUBTYPE_DISASSOC /\
-    rho' "disassoc->fixed_parameters.reason_code" = reason /\
-    rho' "disassoc->tags.length" = 0 /\ rho' "disassoc->tags.parameters" = 0 /\
-    reads_zero rho' "disassoc->frame_header." mgmt_rest /\
-    untouched "disassoc->"
-      ["disassoc->frame_header.frame_control.type"; "disassoc->frame_header.frame_control.subtype";
-       "disassoc->fixed_parameters.reason_code"]
-      ["disassoc->frame_header.addr1"; "disassoc->frame_header.addr2"; "disassoc->frame_header.addr3"] rho'.
-Proof.
-  intros Hre rho0. unfold rho0, body_libwifi_create_disassoc; clear rho0. gen_finish.
-Qed.
-
-(* control frames: a four-octet header (frame control, duration) and the addresses as members of the object itself.
-   RTS copies the transmitter first, then the receiver (the struct has receiver_addr before transmitter_addr: each copy
-   names its destination member, so the order of the two calls does not matter for the layout). *)
-Theorem code_create_rts rho dur :
-  0 <= dur < 65536 ->
-  let rho0 := upd rho "duration" dur in
-  exists rho',
-    exec 40 m rho0 [] body_libwifi_create_rts =
-      Returned (Some 0) rho'
-        [ev_memset rho "rts" sizeof_libwifi_rts;
-         ev_memcpy rho "&rts->transmitter_addr" "transmitter" 6;
-         ev_memcpy rho "&rts->receiver_addr" "receiver" 6] /\
-    rho' "rts->frame_header.frame_control.type" = c_TYPE_CONTROL /\
-    rho' "rts->frame_header.frame_control.subtype" = c_SUBTYPE_RTS /\
-    rho' "rts->frame_header.duration" = dur /\
-    reads_zero rho' "rts->frame_header." ctrl_rest /\
-    untouched "rts->"
-      ["rts->frame_header.frame_control.type"; "rts->frame_header.frame_control.subtype"; "rts->frame_header.duration"]
-      ["rts->transmitter_addr"; "rts->receiver_addr"] rho'.
-Proof.
-  intros Hd rho0. unfold rho0, body_libwifi_create_rts; clear rho0. gen_finish.
-Qed.
-
-Theorem code_create_cts rho dur :
-  0 <= dur < 65536 ->
-  let rho0 := upd rho "duration" dur in
-  exists rho',
-    exec 40 m rho0 [] body_libwifi_create_cts =
-      Returned (Some 0) rho'
-        [ev_memset rho "cts" sizeof_libwifi_cts; ev_memcpy rho "&cts->receiver_addr" "receiver" 6] /\
-    rho' "cts->frame_header.frame_control.type" = c_TYPE_CONTROL /\
-    rho' "cts->frame_header.frame_control.subtype" = c_SUBTYPE_CTS /\
-    rho' "cts->frame_header.duration" = dur /\
-    reads_zero rho' "cts->frame_header." ctrl_rest /\
-    untouched "cts->"
-      ["cts->frame_header.frame_control.type"; "cts->frame_header.frame_control.subtype"; "cts->frame_header.duration"]
-      ["cts->receiver_addr"] rho'.
-Proof.
-  intros Hd rho0. unfold rho0, body_libwifi_create_cts; clear rho0. gen_finish.
-Qed.
-
-(* ================================================================ 3. the routines that add their tags themselves
-   n = what strlen(ssid) answers, r = what libwifi_quick_add_tag answers.  The strlen event precedes the event of the call whose argument it is.
-   One name per callee in the environment: within ONE run both adds get the same answer r; the [..._second_add] theorems run
-   the rest of the body from the second add in an arbitrary environment and trace, which covers a second answer that differs
-   from the first.  The [..._before_add] theorems give the state in which the first add is made: every lvalue under
-   "obj->tags" reads 0 (length 0, no block). *)
-
-Theorem code_create_assoc_req rho n r :
-  0 <= n < 2 ^ 64 -> - 2 ^ 31 <= r < 2 ^ 31 ->
-  let rho0 := upd (upd rho "ret:strlen" n) "ret:libwifi_quick_add_tag" r in
-  exists rho',
-    exec 40 m rho0 [] body_libwifi_create_assoc_req =
-      Returned (Some r) rho'
-        (mgmt_events rho "assoc_req" sizeof_libwifi_assoc_req "receiver" "transmitter" "address3" ++
-         [("strlen", [wrap u64 (rho "ssid")]); ev_add_tag rho "&assoc_req->tags" c_TAG_SSID "ssid" n] ++
-         (if r =? 0 then [ev_add_tag rho "&assoc_req->tags" c_TAG_DS_PARAMETER "&channel" 1] else [])) /\
-    rho' "assoc_req->frame_header.frame_control.type" = c_TYPE_MANAGEMENT /\
-    rho' "assoc_req->frame_header.frame_control.subtype" = c_SUBTYPE_ASSOC_REQ /\
-    rho' "assoc_req->fixed_parameters.capabilities_information" = c_LIBWIFI_DEFAULT_AP_CAPABS /\
-    rho' "assoc_req->fixed_parameters.listen_interval" = c_LIBWIFI_DEFAULT_LISTEN_INTERVAL /\
-    reads_zero rho' "assoc_req->frame_header." mgmt_rest /\
-    untouched "assoc_req->"
-      ["assoc_req->frame_header.frame_control.type"; "assoc_req->frame_header.frame_control.subtype";
-       "assoc_req->fixed_parameters.capabilities_information"; "assoc_req->fixed_parameters.listen_interval"]
-      ["assoc_req->frame_header.addr1"; "assoc_req->frame_header.addr2"; "assoc_req->frame_header.addr3"; "assoc_req->tags"] rho'.
-Proof.
-  intros Hn Hr rho0; nums. unfold rho0, body_libwifi_create_assoc_req; clear rho0.
-  gen_prefix. destruct (Z.eqb_spec r 0) as [E | N]; [subst r | ]; gen_finish.
-Qed.
-
-Theorem code_create_assoc_req_before_add rho :
-  exists rho1,
-    exec 40 m rho [] (firstn 13 body_libwifi_create_assoc_req) =
-      Fell rho1 (mgmt_events rho "assoc_req" sizeof_libwifi_assoc_req "receiver" "transmitter" "address3" ++ [("strlen", [wrap u64 (rho "ssid")])])%list /\
-    (forall s, rho1 ("assoc_req->tags" ++ s) = 0) /\
-    calls "libwifi_quick_add_tag" (skipn 13 body_libwifi_create_assoc_req).
-Proof.
-  unfold body_libwifi_create_assoc_req. cbn [firstn skipn]. gen_before.
-Qed.
-
-Theorem code_create_assoc_req_second_add rho tr r2 :
-  - 2 ^ 31 <= r2 < 2 ^ 31 ->
-  let rho1 := upd rho "ret:libwifi_quick_add_tag" r2 in
-  calls "libwifi_quick_add_tag" (skipn 17 body_libwifi_create_assoc_req) /\
-  observe (exec 10 m rho1 tr (skipn 17 body_libwifi_create_assoc_req)) =
-    Some (Some r2, (tr ++ [ev_add_tag rho "&assoc_req->tags" c_TAG_DS_PARAMETER "&channel" 1])%list).
-Proof.
-  intros Hr rho1; nums. unfold rho1, body_libwifi_create_assoc_req; clear rho1. cbn [firstn skipn].
-  split; [reflexivity | ].
-  destruct (Z.eqb_spec r2 0) as [E | N]; [subst r2 | ]; gen_observe.
-Qed.
-
-Theorem code_create_probe_req rho n r :
-  0 <= n < 2 ^ 64 -> - 2 ^ 31 <= r < 2 ^ 31 ->
-  let rho0 := upd (upd rho "ret:strlen" n) "ret:libwifi_quick_add_tag" r in
-  exists rho',
-    exec 40 m rho0 [] body_libwifi_create_probe_req =
-      Returned (Some r) rho'
-        (mgmt_events rho "probe_req" sizeof_libwifi_probe_req "receiver" "transmitter" "address3" ++
-         [("strlen", [wrap u64 (rho "ssid")]); ev_add_tag rho "&probe_req->tags" c_TAG_SSID "ssid" n] ++
-         (if r =? 0 then [ev_add_tag rho "&probe_req->tags" c_TAG_DS_PARAMETER "&channel" 1] else [])) /\
-    rho' "probe_req->frame_header.frame_control.type" = c_TYPE_MANAGEMENT /\
-    rho' "probe_req->frame_header.frame_control.subtype" = c_SUBTYPE_PROBE_REQ /\
-    reads_zero rho' "probe_req->frame_header." mgmt_rest /\
-    untouched "probe_req->"
-      ["probe_req->frame_header.frame_control.type"; "probe_req->frame_header.frame_control.subtype"]
-      ["probe_req->frame_header.addr1"; "probe_req->frame_header.addr2"; "probe_req->frame_header.addr3"; "probe_req->tags"] rho'.
-Proof.
-  intros Hn Hr rho0; nums. unfold rho0, body_libwifi_create_probe_req; clear rho0.
-  gen_prefix. destruct (Z.eqb_spec r 0) as [E | N]; [subst r | ]; gen_finish.
-Qed.
-
-Theorem code_create_probe_req_before_add rho :
-  exists rho1,
-    exec 40 m rho [] (firstn 11 body_libwifi_create_probe_req) =
-      Fell rho1 (mgmt_events rho "probe_req" sizeof_libwifi_probe_req "receiver" "transmitter" "address3" ++ [("strlen", [wrap u64 (rho "ssid")])])%list /\
-    (forall s, rho1 ("probe_req->tags" ++ s) = 0) /\
-    calls "libwifi_quick_add_tag" (skipn 11 body_libwifi_create_probe_req).
-Proof.
-  unfold body_libwifi_create_probe_req. cbn [firstn skipn]. gen_before.
-Qed.
-
-Theorem code_create_probe_req_second_add rho tr r2 :
-  - 2 ^ 31 <= r2 < 2 ^ 31 ->
-  let rho1 := upd rho "ret:libwifi_quick_add_tag" r2 in
-  calls "libwifi_quick_add_tag" (skipn 15 body_libwifi_create_probe_req) /\
-  observe (exec 10 m rho1 tr (skipn 15 body_libwifi_create_probe_req)) =
-    Some (Some r2, (tr ++ [ev_add_tag rho "&probe_req->tags" c_TAG_DS_PARAMETER "&channel" 1])%list).
-Proof.
-  intros Hr rho1; nums. unfold rho1, body_libwifi_create_probe_req; clear rho1. cbn [firstn skipn].
-  split; [reflexivity | ]. gen_observe.
-Qed.
-
-(* reassociation request: the current AP address is a fourth six-octet copy, into the fixed parameters *)
-Theorem code_create_reassoc_req rho n r :
-  0 <= n < 2 ^ 64 -> - 2 ^ 31 <= r < 2 ^ 31 ->
-  let rho0 := upd (upd rho "ret:strlen" n) "ret:libwifi_quick_add_tag" r in
-  exists rho',
-    exec 40 m rho0 [] body_libwifi_create_reassoc_req =
-      Returned (Some r) rho'
-        (mgmt_events rho "reassoc_req" sizeof_libwifi_reassoc_req "receiver" "transmitter" "address3" ++
-         [ev_memcpy rho "&reassoc_req->fixed_parameters.current_ap_address" "current_ap" 6;
-          ("strlen", [wrap u64 (rho "ssid")]); ev_add_tag rho "&reassoc_req->tags" c_TAG_SSID "ssid" n] ++
-         (if r =? 0 then [ev_add_tag rho "&reassoc_req->tags" c_TAG_DS_PARAMETER "&channel" 1] else [])) /\
-    rho' "reassoc_req->frame_header.frame_control.type" = c_TYPE_MANAGEMENT /\
-    rho' "reassoc_req->frame_header.frame_control.subtype" = c_SUBTYPE_REASSOC_REQ /\
-    rho' "reassoc_req->fixed_parameters.capabilities_information" = c_LIBWIFI_DEFAULT_AP_CAPABS /\
-    rho' "reassoc_req->fixed_parameters.listen_interval" = c_LIBWIFI_DEFAULT_LISTEN_INTERVAL /\
-    reads_zero rho' "reassoc_req->frame_header." mgmt_rest /\
-    untouched "reassoc_req->"
-      ["reassoc_req->frame_header.frame_control.type"; "reassoc_req->frame_header.frame_control.subtype";
-       "reassoc_req->fixed_parameters.capabilities_information"; "reassoc_req->fixed_parameters.listen_interval"]
-      ["reassoc_req->frame_header.addr1"; "reassoc_req->frame_header.addr2"; "reassoc_req->frame_header.addr3";
-       "reassoc_req->fixed_parameters.current_ap_address"; "reassoc_req->tags"] rho'.
-Proof.
-  intros Hn Hr rho0; nums. unfold rho0, body_libwifi_create_reassoc_req; clear rho0.
-  gen_prefix. destruct (Z.eqb_spec r 0) as [E | N]; [subst r | ]; gen_finish.
-Qed.
-
-Theorem code_create_reassoc_req_before_add rho :
-  exists rho1,
-    exec 40 m rho [] (firstn 15 body_libwifi_create_reassoc_req) =
-      Fell rho1 (mgmt_events rho "reassoc_req" sizeof_libwifi_reassoc_req "receiver" "transmitter" "address3" ++
-                 [ev_memcpy rho "&reassoc_req->fixed_parameters.current_ap_address" "current_ap" 6; ("strlen", [wrap u64 (rho "ssid")])]) /\
-    (forall s, rho1 ("reassoc_req->tags" ++ s) = 0) /\
-    calls "libwifi_quick_add_tag" (skipn 15 body_libwifi_create_reassoc_req).
-Proof.
-  unfold body_libwifi_create_reassoc_req. cbn [firstn skipn]. gen_before.
-Qed.
-
-Theorem code_create_reassoc_req_second_add rho tr r2 :
-  - 2 ^ 31 <= r2 < 2 ^ 31 ->
-  let rho1 := upd rho "ret:libwifi_quick_add_tag" r2 in
-  calls "libwifi_quick_add_tag" (skipn 19 body_libwifi_create_reassoc_req) /\
-  observe (exec 10 m rho1 tr (skipn 19 body_libwifi_create_reassoc_req)) =
-    Some (Some r2, (tr ++ [ev_add_tag rho "&reassoc_req->tags" c_TAG_DS_PARAMETER "&channel" 1])%list).
-Proof.
-  intros Hr rho1; nums. unfold rho1, body_libwifi_create_reassoc_req; clear rho1. cbn [firstn skipn].
-  split; [reflexivity | ]. gen_observe.
-Qed.
-
-(* ================================================================ 4. the routines that add their tags through the setters
-   now = what libwifi_get_epoch answers, s / c = what the SSID / channel setter answers, ch = the channel argument.
-   The setters receive the object pointer itself; the translation marks nothing as written by them, so the frame statement
-   lists "obj->tags" among the members it says nothing about (section 5 shows the setters write nothing else). *)
-
-Theorem code_create_beacon rho now s c ch :
-  0 <= now < 2 ^ 64 -> - 2 ^ 31 <= s < 2 ^ 31 -> - 2 ^ 31 <= c < 2 ^ 31 -> 0 <= ch < 256 ->
-  let rho0 := upd (upd (upd (upd rho "ret:libwifi_get_epoch" now) "ret:libwifi_set_beacon_ssid" s)
-                     "ret:libwifi_set_beacon_channel" c) "channel" ch in
-  exists rho',
-    exec 40 m rho0 [] body_libwifi_create_beacon =
-      Returned (Some (if s =? 0 then c else s)) rho'
-        (mgmt_events rho "beacon" sizeof_libwifi_beacon "receiver" "transmitter" "address3" ++
-         [("libwifi_get_epoch", []); ("libwifi_set_beacon_ssid", [wrap u64 (rho "beacon"); wrap u64 (rho "ssid")])] ++
-         (if s =? 0 then [("libwifi_set_beacon_channel", [wrap u64 (rho "beacon"); ch])] else [])) /\
-    rho' "beacon->frame_header.frame_control.type" = c_TYPE_MANAGEMENT /\
-    rho' "beacon->frame_header.frame_control.subtype" = c_SUBTYPE_BEACON /\
-    rho' "beacon->fixed_parameters.timestamp" = now /\
-    rho' "beacon->fixed_parameters.beacon_interval" = c_LIBWIFI_DEFAULT_BEACON_INTERVAL /\
-    rho' "beacon->fixed_parameters.capabilities_information" = c_LIBWIFI_DEFAULT_AP_CAPABS /\
-    reads_zero rho' "beacon->frame_header." mgmt_rest /\
-    untouched "beacon->"
-      ["beacon->frame_header.frame_control.type"; "beacon->frame_header.frame_control.subtype";
-       "beacon->fixed_parameters.timestamp"; "beacon->fixed_parameters.beacon_interval";
-       "beacon->fixed_parameters.capabilities_information"]
-      ["beacon->frame_header.addr1"; "beacon->frame_header.addr2"; "beacon->frame_header.addr3"; "beacon->tags"] rho'.
-Proof.
-  intros Hnow Hs Hc Hch rho0; nums. unfold rho0, body_libwifi_create_beacon; clear rho0.
-  gen_prefix. destruct (Z.eqb_spec s 0) as [E | N]; [subst s | ]; gen_finish.
-Qed.
-
-Theorem code_create_beacon_before_add rho now :
-  0 <= now < 2 ^ 64 ->
-  let rho0 := upd rho "ret:libwifi_get_epoch" now in
-  exists rho1,
-    exec 40 m rho0 [] (firstn 14 body_libwifi_create_beacon) =
-      Fell rho1 (mgmt_events rho "beacon" sizeof_libwifi_beacon "receiver" "transmitter" "address3" ++ [("libwifi_get_epoch", [])]) /\
-    (forall s, rho1 ("beacon->tags" ++ s) = 0) /\
-    calls "libwifi_set_beacon_ssid" (skipn 14 body_libwifi_create_beacon).
-Proof.
-  intros Hnow rho0; nums. unfold rho0, body_libwifi_create_beacon; clear rho0. cbn [firstn skipn]. gen_before.
-Qed.
-
-Theorem code_create_probe_resp rho now s c ch :
-  0 <= now < 2 ^ 64 -> - 2 ^ 31 <= s < 2 ^ 31 -> - 2 ^ 31 <= c < 2 ^ 31 -> 0 <= ch < 256 ->
-  let rho0 := upd (upd (upd (upd rho "ret:libwifi_get_epoch" now) "ret:libwifi_set_probe_resp_ssid" s)
-                     "ret:libwifi_set_probe_resp_channel" c) "channel" ch in
-  exists rho',
-    exec 40 m rho0 [] body_libwifi_create_probe_resp =
-      Returned (Some (if s =? 0 then c else s)) rho'
-        (mgmt_events rho "probe_resp" sizeof_libwifi_probe_resp "receiver" "transmitter" "address3" ++
-         [("libwifi_get_epoch", []); ("libwifi_set_probe_resp_ssid", [wrap u64 (rho "probe_resp"); wrap u64 (rho "ssid")])] ++
-         (if s =? 0 then [("libwifi_set_probe_resp_channel", [wrap u64 (rho "probe_resp"); ch])] else [])) /\
-    rho' "probe_resp->frame_header.frame_control.type" = c_TYPE_MANAGEMENT /\
-    rho' "probe_resp->frame_header.frame_control.subtype" = c_SUBTYPE_PROBE_RESP /\
-    rho' "probe_resp->fixed_parameters.timestamp" = now /\
-    rho' "probe_resp->fixed_parameters.probe_resp_interval" = c_LIBWIFI_DEFAULT_BEACON_INTERVAL /\
-    rho' "probe_resp->fixed_parameters.capabilities_information" = c_LIBWIFI_DEFAULT_AP_CAPABS /\
-    reads_zero rho' "probe_resp->frame_header." mgmt_rest /\
-    untouched "probe_resp->"
-      ["probe_resp->frame_header.frame_control.type"; "probe_resp->frame_header.frame_control.subtype";
-       "probe_resp->fixed_parameters.timestamp"; "probe_resp->fixed_parameters.probe_resp_interval";
-       "probe_resp->fixed_parameters.capabilities_information"]
-      ["probe_resp->frame_header.addr1"; "probe_resp->frame_header.addr2"; "probe_resp->frame_header.addr3"; "probe_resp->tags"] rho'.
-Proof.
-  intros Hnow Hs Hc Hch rho0; nums. unfold rho0, body_libwifi_create_probe_resp; clear rho0.
-  gen_prefix. destruct (Z.eqb_spec s 0) as [E | N]; [subst s | ]; gen_finish.
-Qed.
-
-Theorem code_create_probe_resp_before_add rho now :
-  0 <= now < 2 ^ 64 ->
-  let rho0 := upd rho "ret:libwifi_get_epoch" now in
-  exists rho1,
-    exec 40 m rho0 [] (firstn 14 body_libwifi_create_probe_resp) =
-      Fell rho1 (mgmt_events rho "probe_resp" sizeof_libwifi_probe_resp "receiver" "transmitter" "address3" ++
-                 [("libwifi_get_epoch", [])]) /\
-    (forall s, rho1 ("probe_resp->tags" ++ s) = 0) /\
-    calls "libwifi_set_probe_resp_ssid" (skipn 14 body_libwifi_create_probe_resp).
-Proof.
-  intros Hnow rho0; nums. unfold rho0, body_libwifi_create_probe_resp; clear rho0. cbn [firstn skipn]. gen_before.
-Qed.
-
-(* association response: status SUCCESS, association id left 0, the channel through its setter, then the supported rates:
-   tag 1 with the sizeof(supported_rates) - 1 = 8 octets of the local array (its initialiser is not an integer expression:
-   the translation shows the array's address only; the length is that of LIBWIFI_DEFAULT_SUPP_RATES).
-   The answer of the rates add is returned whatever it is. *)
-Theorem code_create_assoc_resp rho s r ch :
-  - 2 ^ 31 <= s < 2 ^ 31 -> - 2 ^ 31 <= r < 2 ^ 31 -> 0 <= ch < 256 ->
-  let rho0 := upd (upd (upd rho "ret:libwifi_set_assoc_resp_channel" s) "ret:libwifi_quick_add_tag" r) "channel" ch in
-  exists rho',
-    exec 40 m rho0 [] body_libwifi_create_assoc_resp =
-      Returned (Some (if s =? 0 then r else s)) rho'
-        (mgmt_events rho "assoc_resp" sizeof_libwifi_assoc_resp "receiver" "transmitter" "address3" ++
-         [("libwifi_set_assoc_resp_channel", [wrap u64 (rho "assoc_resp"); ch])] ++
-         (if s =? 0 then [ev_add_tag rho "&assoc_resp->tags" c_TAG_SUPP_RATES "&supported_rates"
-                            (Z.of_nat (List.length c_LIBWIFI_DEFAULT_SUPP_RATES))] else [])) /\
-    rho' "assoc_resp->frame_header.frame_control.type" = c_TYPE_MANAGEMENT /\
-    rho' "assoc_resp->frame_header.frame_control.subtype" = c_SUBTYPE_ASSOC_RESP /\
-    rho' "assoc_resp->fixed_parameters.capabilities_information" = c_LIBWIFI_DEFAULT_AP_CAPABS /\
-    rho' "assoc_resp->fixed_parameters.status_code" = c_STATUS_SUCCESS /\
-    rho' "assoc_resp->fixed_parameters.association_id" = 0 /\
-    reads_zero rho' "assoc_resp->frame_header." mgmt_rest /\
-    untouched "assoc_resp->"
-      ["assoc_resp->frame_header.frame_control.type"; "assoc_resp->frame_header.frame_control.subtype";
-       "assoc_resp->fixed_parameters.capabilities_information"; "assoc_resp->fixed_parameters.status_code"]
-      ["assoc_resp->frame_header.addr1"; "assoc_resp->frame_header.addr2"; "assoc_resp->frame_header.addr3"; "assoc_resp->tags"] rho'.
-Proof.
-  intros Hs Hr Hch rho0; nums. unfold rho0, body_libwifi_create_assoc_resp; clear rho0.
-  gen_prefix. destruct (Z.eqb_spec s 0) as [E | N]; [subst s | ]; gen_finish.
-Qed.
-
-Theorem code_create_assoc_resp_before_add rho :
-  exists rho1,
-    exec 40 m rho [] (firstn 12 body_libwifi_create_assoc_resp) =
-      Fell rho1 (mgmt_events rho "assoc_resp" sizeof_libwifi_assoc_resp "receiver" "transmitter" "address3") /\
-    (forall s, rho1 ("assoc_resp->tags" ++ s) = 0) /\
-    calls "libwifi_set_assoc_resp_channel" (skipn 12 body_libwifi_create_assoc_resp).
-Proof.
-  unfold body_libwifi_create_assoc_resp. cbn [firstn skipn]. gen_before.
-Qed.
-
-(* reassociation response.  DEVIATION from the association response: no supported-rates element is added, the channel
-   setter's answer is the routine's *)
-Theorem code_create_reassoc_resp rho s ch :
-  - 2 ^ 31 <= s < 2 ^ 31 -> 0 <= ch < 256 ->
-  let rho0 := upd (upd rho "ret:libwifi_set_reassoc_resp_channel" s) "channel" ch in
-  exists rho',
-    exec 40 m rho0 [] body_libwifi_create_reassoc_resp =
-      Returned (Some s) rho'
-        (mgmt_events rho "reassoc_resp" sizeof_libwifi_reassoc_resp "receiver" "transmitter" "address3" ++
-         [("libwifi_set_reassoc_resp_channel", [wrap u64 (rho "reassoc_resp"); ch])]) /\
-    rho' "reassoc_resp->frame_header.frame_control.type" = c_TYPE_MANAGEMENT /\
-    rho' "reassoc_resp->frame_header.frame_control.subtype" = c_SUBTYPE_REASSOC_RESP /\
-    rho' "reassoc_resp->fixed_parameters.capabilities_information" = c_LIBWIFI_DEFAULT_AP_CAPABS /\
-    rho' "reassoc_resp->fixed_parameters.status_code" = c_STATUS_SUCCESS /\
-    rho' "reassoc_resp->fixed_parameters.association_id" = 0 /\
-    reads_zero rho' "reassoc_resp->frame_header." mgmt_rest /\
-    untouched "reassoc_resp->"
-      ["reassoc_resp->frame_header.frame_control.type"; "reassoc_resp->frame_header.frame_control.subtype";
-       "reassoc_resp->fixed_parameters.capabilities_information"; "reassoc_resp->fixed_parameters.status_code"]
-      ["reassoc_resp->frame_header.addr1"; "reassoc_resp->frame_header.addr2"; "reassoc_resp->frame_header.addr3";
-       "reassoc_resp->tags"] rho'.
-Proof.
-  intros Hs Hch rho0; nums. unfold rho0, body_libwifi_create_reassoc_resp; clear rho0. gen_finish.
-Qed.
-
-Theorem code_create_reassoc_resp_before_add rho :
-  exists rho1,
-    exec 40 m rho [] (firstn 12 body_libwifi_create_reassoc_resp) =
-      Fell rho1 (mgmt_events rho "reassoc_resp" sizeof_libwifi_reassoc_resp "receiver" "transmitter" "address3") /\
-    (forall s, rho1 ("reassoc_resp->tags" ++ s) = 0) /\
-    calls "libwifi_set_reassoc_resp_channel" (skipn 12 body_libwifi_create_reassoc_resp).
-Proof.
-  unfold body_libwifi_create_reassoc_resp. cbn [firstn skipn]. gen_before.
-Qed.
-
-(* ================================================================ 5. the setters the generators of section 4 call
-   L = obj->tags.length on entry, p / r / d = what libwifi_check_tag / libwifi_quick_add_tag / libwifi_remove_tag answer,
-   n = what strlen(ssid) answers.  With an empty list (L = 0: the state the generators call the first setter in, by the
-   [..._before_add] theorems) nothing is looked up and nothing removed: exactly one add, whose answer is returned.
-   Otherwise the element is looked up first; a negative answer is returned at once; else the new element is added, a
-   non-zero answer of the add is returned, and the OLD element is removed after the add when the look-up found one (the
-   answer of the removal is then the routine's).  Only "obj->tags" is handed to the callees: the setters write nothing else. *)
-Ltac setter_cases L p r :=
-  destruct (Z.eqb_spec L 0) as [EL | NL]; [subst L | ];
-  [ | destruct (Z_lt_le_dec p 0) as [Hp | Hp]; [ | destruct (Z.eqb_spec p 0) as [Ep | Np]; [subst p | ] ] ];
-  (destruct (Z.eqb_spec r 0) as [Er | Nr]; [subst r | ]).
-Ltac setter_solve L p r := setter_cases L p r; decide_bools; cbn [negb]; cbv beta iota; gen_observe.
-
-Definition setter_env (rho : env) (len : string) (L p r d : Z) : env :=
-  upd (upd (upd (upd rho len L) "ret:libwifi_check_tag" p) "ret:libwifi_quick_add_tag" r) "ret:libwifi_remove_tag" d.
-(* the outcome of a setter: chk = the look-up event, adds = the events of the add, rem = the removal event *)
-Definition setter_outcome (L p r d : Z) (chk : event) (adds : list event) (rem : event) : option (option Z * list event) :=
-  let pe := if L =? 0 then 0 else p in
-  let pre := if L =? 0 then [] else [chk] in
-  if pe <? 0 then Some (Some pe, pre)
-  else if negb (r =? 0) then Some (Some r, (pre ++ adds)%list)
-  else if pe >? 0 then Some (Some d, (pre ++ adds ++ [rem])%list)
-  else Some (Some 0, (pre ++ adds)%list).
-Definition ev_tag_op (rho : env) (f tags : string) (num : Z) : event := (f, [wrap u64 (rho tags); num]).
-
-Theorem code_set_beacon_ssid rho L p r d n :
-  0 <= L < 2 ^ 64 -> - 2 ^ 31 <= p < 2 ^ 31 -> - 2 ^ 31 <= r < 2 ^ 31 -> - 2 ^ 31 <= d < 2 ^ 31 -> 0 <= n < 2 ^ 64 ->
-  let rho0 := upd (setter_env rho "beacon->tags.length" L p r d) "ret:strlen" n in
-  observe (exec 40 m rho0 [] body_libwifi_set_beacon_ssid) =
-    setter_outcome L p r d (ev_tag_op rho "libwifi_check_tag" "&beacon->tags" c_TAG_SSID)
-      [("strlen", [wrap u64 (rho "ssid")]); ev_add_tag rho "&beacon->tags" c_TAG_SSID "ssid" n]
-      (ev_tag_op rho "libwifi_remove_tag" "&beacon->tags" c_TAG_SSID).
-Proof.
-  intros HL Hp0 Hr Hd Hn rho0; nums.
-  unfold rho0, setter_env, setter_outcome, ev_tag_op, body_libwifi_set_beacon_ssid; clear rho0. setter_solve L p r.
-Qed.
-
-Theorem code_set_probe_resp_ssid rho L p r d n :
-  0 <= L < 2 ^ 64 -> - 2 ^ 31 <= p < 2 ^ 31 -> - 2 ^ 31 <= r < 2 ^ 31 -> - 2 ^ 31 <= d < 2 ^ 31 -> 0 <= n < 2 ^ 64 ->
-  let rho0 := upd (setter_env rho "probe_resp->tags.length" L p r d) "ret:strlen" n in
-  observe (exec 40 m rho0 [] body_libwifi_set_probe_resp_ssid) =
-    setter_outcome L p r d (ev_tag_op rho "libwifi_check_tag" "&probe_resp->tags" c_TAG_SSID)
-      [("strlen", [wrap u64 (rho "ssid")]); ev_add_tag rho "&probe_resp->tags" c_TAG_SSID "ssid" n]
-      (ev_tag_op rho "libwifi_remove_tag" "&probe_resp->tags" c_TAG_SSID).
-Proof.
-  intros HL Hp0 Hr Hd Hn rho0; nums.
-  unfold rho0, setter_env, setter_outcome, ev_tag_op, body_libwifi_set_probe_resp_ssid; clear rho0. setter_solve L p r.
-Qed.
-
-(* the channel setters: one octet, from the address of the by-value parameter [channel] *)
-Theorem code_set_beacon_channel rho L p r d :
-  0 <= L < 2 ^ 64 -> - 2 ^ 31 <= p < 2 ^ 31 -> - 2 ^ 31 <= r < 2 ^ 31 -> - 2 ^ 31 <= d < 2 ^ 31 ->
-  let rho0 := setter_env rho "beacon->tags.length" L p r d in
-  observe (exec 40 m rho0 [] body_libwifi_set_beacon_channel) =
-    setter_outcome L p r d (ev_tag_op rho "libwifi_check_tag" "&beacon->tags" c_TAG_DS_PARAMETER)
-      [ev_add_tag rho "&beacon->tags" c_TAG_DS_PARAMETER "&channel" 1]
-      (ev_tag_op rho "libwifi_remove_tag" "&beacon->tags" c_TAG_DS_PARAMETER).
-Proof.
-  intros HL Hp0 Hr Hd rho0; nums.
-  unfold rho0, setter_env, setter_outcome, ev_tag_op, body_libwifi_set_beacon_channel; clear rho0. setter_solve L p r.
-Qed.
-
-Theorem code_set_probe_resp_channel rho L p r d :
-  0 <= L < 2 ^ 64 -> - 2 ^ 31 <= p < 2 ^ 31 -> - 2 ^ 31 <= r < 2 ^ 31 -> - 2 ^ 31 <= d < 2 ^ 31 ->
-  let rho0 := setter_env rho "probe_resp->tags.length" L p r d in
-  observe (exec 40 m rho0 [] body_libwifi_set_probe_resp_channel) =
-    setter_outcome L p r d (ev_tag_op rho "libwifi_check_tag" "&probe_resp->tags" c_TAG_DS_PARAMETER)
-      [ev_add_tag rho "&probe_resp->tags" c_TAG_DS_PARAMETER "&channel" 1]
-      (ev_tag_op rho "libwifi_remove_tag" "&probe_resp->tags" c_TAG_DS_PARAMETER).
-Proof.
-  intros HL Hp0 Hr Hd rho0; nums.
-  unfold rho0, setter_env, setter_outcome, ev_tag_op, body_libwifi_set_probe_resp_channel; clear rho0. setter_solve L p r.
-Qed.
-
-Theorem code_set_assoc_resp_channel rho L p r d :
-  0 <= L < 2 ^ 64 -> - 2 ^ 31 <= p < 2 ^ 31 -> - 2 ^ 31 <= r < 2 ^ 31 -> - 2 ^ 31 <= d < 2 ^ 31 ->
-  let rho0 := setter_env rho "assoc_resp->tags.length" L p r d in
-  observe (exec 40 m rho0 [] body_libwifi_set_assoc_resp_channel) =
-    setter_outcome L p r d (ev_tag_op rho "libwifi_check_tag" "&assoc_resp->tags" c_TAG_DS_PARAMETER)
-      [ev_add_tag rho "&assoc_resp->tags" c_TAG_DS_PARAMETER "&channel" 1]
-      (ev_tag_op rho "libwifi_remove_tag" "&assoc_resp->tags" c_TAG_DS_PARAMETER).
-Proof.
-  intros HL Hp0 Hr Hd rho0; nums.
-  unfold rho0, setter_env, setter_outcome, ev_tag_op, body_libwifi_set_assoc_resp_channel; clear rho0. setter_solve L p r.
-Qed.
-
-Theorem code_set_reassoc_resp_channel rho L p r d :
-  0 <= L < 2 ^ 64 -> - 2 ^ 31 <= p < 2 ^ 31 -> - 2 ^ 31 <= r < 2 ^ 31 -> - 2 ^ 31 <= d < 2 ^ 31 ->
-  let rho0 := setter_env rho "reassoc_resp->tags.length" L p r d in
-  observe (exec 40 m rho0 [] body_libwifi_set_reassoc_resp_channel) =
-    setter_outcome L p r d (ev_tag_op rho "libwifi_check_tag" "&reassoc_resp->tags" c_TAG_DS_PARAMETER)
-      [ev_add_tag rho "&reassoc_resp->tags" c_TAG_DS_PARAMETER "&channel" 1]
-      (ev_tag_op rho "libwifi_remove_tag" "&reassoc_resp->tags" c_TAG_DS_PARAMETER).
-Proof.
-  intros HL Hp0 Hr Hd rho0; nums.
-  unfold rho0, setter_env, setter_outcome, ev_tag_op, body_libwifi_set_reassoc_resp_channel; clear rho0. setter_solve L p r.
-Qed.
-
-(* with an empty list: one add, nothing else *)
-Corollary code_set_beacon_ssid_fresh rho p r d n :
-  - 2 ^ 31 <= p < 2 ^ 31 -> - 2 ^ 31 <= r < 2 ^ 31 -> - 2 ^ 31 <= d < 2 ^ 31 -> 0 <= n < 2 ^ 64 ->
-  observe (exec 40 m (upd (setter_env rho "beacon->tags.length" 0 p r d) "ret:strlen" n) [] body_libwifi_set_beacon_ssid) =
-    Some (Some r, [("strlen", [wrap u64 (rho "ssid")]); ev_add_tag rho "&beacon->tags" c_TAG_SSID "ssid" n]).
-Proof.
-  intros Hp Hr Hd Hn. rewrite (code_set_beacon_ssid rho 0 p r d n) by (assumption || (change (2 ^ 64) with 18446744073709551616; lia)).
-  unfold setter_outcome. change (0 =? 0) with true. cbv beta iota. change (0 <? 0) with false. change (0 >? 0) with false. cbv beta iota.
-  destruct (Z.eqb_spec r 0) as [E | N]; [subst r | ]; reflexivity.
-Qed.
-
-(* ================================================================ 6. the timing advertisement
-   destination / transmitter / address3, the time stamp, the defaults (the one-octet measurement pilot interval gets the
-   beacon interval's 100), the country by a three-octet copy, the four power figures from the arguments.  All of this is
-   done BEFORE the test of adv_fields: with adv_fields == NULL the routine returns -EINVAL leaving a filled object.
-   Otherwise the element is assembled in the local array element_data (address e; e + 17 has to stay an address: the
-   destinations are pointer sums): the capabilities octet, then by its value tc: 1 -> time value (10) and time error (5);
-   2 -> the same and the update counter (1); any other value -> nothing more; and one add of element 69 with the
-   length assembled (16 / 17 / 1).  Its answer is the routine's. *)
-Definition ta_assigned : list string :=
-  ["adv->frame_header.frame_control.type"; "adv->frame_header.frame_control.subtype";
-   "adv->fixed_parameters.timestamp"; "adv->fixed_parameters.measurement_pilot_interval";
-   "adv->fixed_parameters.beacon_interval"; "adv->fixed_parameters.capabilities_information";
-   "adv->fixed_parameters.max_reg_power"; "adv->fixed_parameters.max_tx_power";
-   "adv->fixed_parameters.tx_power_used"; "adv->fixed_parameters.noise_floor"].
-Definition ta_clobbered : list string :=
-  ["adv->frame_header.addr1"; "adv->frame_header.addr2"; "adv->frame_header.addr3"; "adv->fixed_parameters.country"; "adv->tags"].
-Definition ta_fields (rho' : env) (now mrp mtp tpu nf : Z) : Prop :=
-  rho' "adv->frame_header.frame_control.type" = c_TYPE_MANAGEMENT /\
-  rho' "adv->frame_header.frame_control.subtype" = c_SUBTYPE_TIME_ADV /\
-  rho' "adv->fixed_parameters.timestamp" = now /\
-  rho' "adv->fixed_parameters.measurement_pilot_interval" = c_LIBWIFI_DEFAULT_BEACON_INTERVAL /\
-  rho' "adv->fixed_parameters.beacon_interval" = c_LIBWIFI_DEFAULT_BEACON_INTERVAL /\
-  rho' "adv->fixed_parameters.capabilities_information" = c_LIBWIFI_DEFAULT_AP_CAPABS /\
-  rho' "adv->fixed_parameters.max_reg_power" = mrp /\
-  rho' "adv->fixed_parameters.max_tx_power" = mtp /\
-  rho' "adv->fixed_parameters.tx_power_used" = tpu /\
-  rho' "adv->fixed_parameters.noise_floor" = nf /\
-  reads_zero rho' "adv->frame_header." mgmt_rest /\
-  untouched "adv->" ta_assigned ta_clobbered rho'.
-Definition ta_events (rho : env) : list event :=
-  (mgmt_events rho "adv" sizeof_libwifi_timing_advert "destination" "transmitter" "address3" ++
-   [("libwifi_get_epoch", []); ev_memcpy rho "&adv->fixed_parameters.country" "country" 3])%list.
-Definition ta_args (rho : env) (now mrp mtp tpu nf af : Z) : env :=
-  upd (upd (upd (upd (upd (upd rho "ret:libwifi_get_epoch" now) "max_reg_power" mrp) "max_tx_power" mtp)
-                "tx_power_used" tpu) "noise_floor" nf) "adv_fields" af.
-
-Theorem code_create_timing_advert_null rho now mrp mtp tpu nf :
-  0 <= now < 2 ^ 64 -> 0 <= mrp < 65536 -> 0 <= mtp < 256 -> 0 <= tpu < 256 -> 0 <= nf < 256 ->
-  let rho0 := ta_args rho now mrp mtp tpu nf 0 in
-  exists rho',
-    exec 60 m rho0 [] body_libwifi_create_timing_advert = Returned (Some (-22)) rho' (ta_events rho) /\
-    ta_fields rho' now mrp mtp tpu nf.
-Proof.
-  intros Hnow Hmrp Hmtp Htpu Hnf rho0; nums.
-  unfold rho0, ta_args, body_libwifi_create_timing_advert, ta_fields, ta_events, ta_assigned, ta_clobbered; clear rho0.
-  gen_finish.
-Qed.
-
-Theorem code_create_timing_advert rho now mrp mtp tpu nf af tc e r :
-  0 <= now < 2 ^ 64 -> 0 <= mrp < 65536 -> 0 <= mtp < 256 -> 0 <= tpu < 256 -> 0 <= nf < 256 ->
-  0 < af < 2 ^ 64 -> 0 <= tc < 256 -> 0 <= e -> e + 17 < 2 ^ 63 -> - 2 ^ 31 <= r < 2 ^ 31 ->
-  let rho0 := upd (upd (upd (ta_args rho now mrp mtp tpu nf af) "adv_fields->timing_capabilities" tc) "&element_data" e)
-                "ret:libwifi_quick_add_tag" r in
-  let copy dst src n : event := ("memcpy", [dst; wrap u64 (rho src); n]) in
-  let copies :=
-    if tc =? 1 then [copy (e + 1) "&adv_fields->time_value" 10; copy (e + 11) "&adv_fields->time_error" 5]
-    else if tc =? 2 then [copy (e + 1) "&adv_fields->time_value" 10; copy (e + 11) "&adv_fields->time_error" 5;
-                          copy (e + 16) "&adv_fields->time_update" 1]
-    else [] in
-  let len := if tc =? 1 then 16 else if tc =? 2 then 17 else 1 in
-  exists rho',
-    exec 60 m rho0 [] body_libwifi_create_timing_advert =
-      Returned (Some r) rho'
-        (ta_events rho ++ [copy e "&adv_fields->timing_capabilities" 1] ++ copies ++
-         [("libwifi_quick_add_tag", [wrap u64 (rho "&adv->tags"); c_TAG_TIME_ADVERTISEMENT; e; len])]) /\
-    ta_fields rho' now mrp mtp tpu nf.
-Proof.
-  intros Hnow Hmrp Hmtp Htpu Hnf Haf Htc He Hee Hr rho0 copy copies len; nums.
-  unfold copies, len, copy, rho0, ta_args, body_libwifi_create_timing_advert, ta_fields, ta_events, ta_assigned, ta_clobbered;
-    clear copies len copy rho0.
-  gen_prefix.
-  destruct (Z.eqb_spec tc 1) as [E1 | N1]; [subst tc | destruct (Z.eqb_spec tc 2) as [E2 | N2]; [subst tc | ]];
-    cbv beta iota; gen_finish.
-Qed.
-
-(* the object's tags are empty when that add is made (the run up to the add, whatever the capabilities octet) *)
-Theorem code_create_timing_advert_before_add rho now mrp mtp tpu nf af tc e :
-  0 <= now < 2 ^ 64 -> 0 <= mrp < 65536 -> 0 <= mtp < 256 -> 0 <= tpu < 256 -> 0 <= nf < 256 -> 0 < af < 2 ^ 64 ->
-  0 <= tc < 256 -> 0 <= e -> e + 17 < 2 ^ 63 ->
-  let rho0 := upd (upd (ta_args rho now mrp mtp tpu nf af) "adv_fields->timing_capabilities" tc) "&element_data" e in
-  exists rho1 tr1,
-    exec 60 m rho0 [] (firstn 29 body_libwifi_create_timing_advert) = Fell rho1 tr1 /\
-    (forall s, rho1 ("adv->tags" ++ s) = 0) /\
-    calls "libwifi_quick_add_tag" (skipn 29 body_libwifi_create_timing_advert).
-Proof.
-  intros Hnow Hmrp Hmtp Htpu Hnf Haf Htc He Hee rho0; nums.
-  unfold rho0, ta_args, body_libwifi_create_timing_advert; clear rho0. cbn [firstn skipn].
-  destruct (Z.eqb_spec tc 1) as [E1 | N1]; [subst tc | destruct (Z.eqb_spec tc 2) as [E2 | N2]; [subst tc | ]];
-    (eexists; eexists; split; [grun | split; [intros s; gen_env; reflexivity | reflexivity]]).
-Qed.
 
 
 End WithMemory.
@@ -936,39 +22,5 @@ Example code_create_atim_addr1_from_receiver_refuted :
     Some (Some 0, [("memset", [4096; 0; 24]); ("memcpy", [4100; 200; 6]); ("memcpy", [4106; 100; 6]); ("memcpy", [4112; 300; 6])]).
 Proof. vm_compute. reflexivity. Qed.
 
-Print Assumptions code_create_action.
-Print Assumptions code_create_action_no_ack.
-Print Assumptions code_create_atim.
-Print Assumptions code_create_auth.
-Print Assumptions code_create_deauth.
-Print Assumptions code_create_disassoc.
-Print Assumptions code_create_rts.
-Print Assumptions code_create_cts.
-Print Assumptions code_create_assoc_req.
-Print Assumptions code_create_assoc_req_before_add.
-Print Assumptions code_create_assoc_req_second_add.
-Print Assumptions code_create_probe_req.
-Print Assumptions code_create_probe_req_before_add.
-Print Assumptions code_create_probe_req_second_add.
-Print Assumptions code_create_reassoc_req.
-Print Assumptions code_create_reassoc_req_before_add.
-Print Assumptions code_create_reassoc_req_second_add.
-Print Assumptions code_create_beacon.
-Print Assumptions code_create_beacon_before_add.
-Print Assumptions code_create_probe_resp.
-Print Assumptions code_create_probe_resp_before_add.
-Print Assumptions code_create_assoc_resp.
-Print Assumptions code_create_assoc_resp_before_add.
-Print Assumptions code_create_reassoc_resp.
-Print Assumptions code_create_reassoc_resp_before_add.
-Print Assumptions code_set_beacon_ssid.
-Print Assumptions code_set_probe_resp_ssid.
-Print Assumptions code_set_beacon_channel.
-Print Assumptions code_set_probe_resp_channel.
-Print Assumptions code_set_assoc_resp_channel.
-Print Assumptions code_set_reassoc_resp_channel.
-Print Assumptions code_set_beacon_ssid_fresh.
-Print Assumptions code_create_timing_advert_null.
-Print Assumptions code_create_timing_advert.
-Print Assumptions code_create_timing_advert_before_add.
-Print Assumptions code_create_atim_addr1_from_receiver_refuted.
+
+
